@@ -2,6 +2,7 @@ package props
 
 import (
 	"fmt"
+	"sort"
 	"testing"
 
 	jd "github.com/josephburnett/jd/v2"
@@ -191,7 +192,39 @@ func perturbBag(t *rapid.T, doc val.V, h ref.Hunk) (val.V, string, bool) {
 				for k, v := range o {
 					o2[k] = v
 				}
-				switch gen.Int(t, "memberOp", 0, 4) {
+				keyNames := make([]string, 0, len(elem.Keys))
+				for k := range elem.Keys {
+					keyNames = append(keyNames, k)
+				}
+				sort.Strings(keyNames)
+				theKey := gen.Pick(t, "whichKey", keyNames)
+				memberOp := gen.Int(t, "memberOp", 0, 6)
+				if memberOp >= 5 {
+					// a look-alike in front of the addressed member: the same
+					// object with one key value different (or, where the
+					// addressed value is not null, with that key missing)
+					twin := map[string]val.V{}
+					for k, v := range o {
+						twin[k] = val.Clone(v)
+					}
+					if memberOp == 6 && elem.Keys[theKey] != nil {
+						how = "lookalike-lacking-one-key-in-front"
+						delete(twin, theKey)
+					} else {
+						how = "lookalike-with-one-key-different-in-front"
+						if elem.Keys[theKey] == nil {
+							twin[theKey] = gen.Pick(t, "twinKeyValue", []val.V{7.0, "x", false})
+						} else if gen.Chance(t, "toNull", 40) {
+							twin[theKey] = nil
+						} else {
+							twin[theKey] = "other-id"
+						}
+					}
+					at := gen.Int(t, "twinAt", 0, i)
+					l = append(l[:at:at], append([]val.V{twin}, l[at:]...)...)
+					break
+				}
+				switch memberOp {
 				case 0:
 					how = "member-nonkey-field-changed"
 					if len(rest) > 0 && rest[0].Kind == ref.Key {
@@ -206,16 +239,10 @@ func perturbBag(t *rapid.T, doc val.V, h ref.Hunk) (val.V, string, bool) {
 					}
 				case 2:
 					how = "member-key-changed"
-					for k := range elem.Keys {
-						o2[k] = "other-id"
-						break
-					}
+					o2[theKey] = "other-id"
 				case 3:
 					how = "member-key-missing"
-					for k := range elem.Keys {
-						delete(o2, k)
-						break
-					}
+					delete(o2, theKey)
 				default:
 					how = "member-other-field-added"
 					o2["extra"] = freshScalar(t)
